@@ -402,6 +402,18 @@ class World(object):
           h.stop_vt = self.vt.time()
           writer.shutdownModifyUpdateSpeed()     # 'before shutdown' trigger, on the reactor thread
           self.reactor.running = False            # reactor leaves its loop; the thread pool is then joined
+        elif k == 'tick':
+          # the InstrumentationService's LoopingCall on the reactor thread: reads the cache's size and stores the
+          # daemon's self-metrics (under CARBON_METRIC_PREFIX; not part of the generated history)
+          h.ticks = getattr(h, 'ticks', 0) + 1
+          h.self_prefix = self.settings.CARBON_METRIC_PREFIX + '.'
+          try:
+            self.instr.recordMetrics()
+          except S.Abort:
+            raise
+          except BaseException as e:
+            h.exceptions.append(('recordMetrics', e))
+            h.tick_exc = e
         elif k == 'call':
           op[1](h)
         else:
@@ -510,8 +522,10 @@ def check_conservation(h, lag=0):
   by_val = {s['value']: s for s in h.stores}
   seen_vals = {}
   drained_idx = {}   # key -> list of (store position in key sequence, drain)
-  all_drains = [d for d in h.drains if d.get('metric') is not None]
-  rest = [dict(metric=m, points=p, call=10 ** 9 + i, ret=10 ** 9 + i, rest=True) for i, (m, p) in enumerate(getattr(h, 'rest', []))]
+  sp = getattr(h, 'self_prefix', None)
+  mine = (lambda m: True) if sp is None else (lambda m: not m.startswith(sp))
+  all_drains = [d for d in h.drains if d.get('metric') is not None and mine(d['metric'])]
+  rest = [dict(metric=m, points=p, call=10 ** 9 + i, ret=10 ** 9 + i, rest=True) for i, (m, p) in enumerate(getattr(h, 'rest', [])) if mine(m)]
   for d in all_drains + rest:
     for (t, v) in d['points']:
       s = by_val.get(v)
@@ -569,6 +583,8 @@ def check_conservation(h, lag=0):
           break
   # anything in the final cache must come from an accepted store
   for m, pts in final.items():
+    if not mine(m):
+      continue
     for t, v in pts.items():
       s = by_val.get(v)
       if s is None or s['metric'] != m or s['ts'] != t:
@@ -585,7 +601,8 @@ def check_queries(h):
   for s in h.stores:
     if not s.get('refused'):
       by_key.setdefault((s['metric'], s['ts']), []).append(s)
-  drains = [d for d in h.drains if d.get('metric') is not None]
+  sp = getattr(h, 'self_prefix', None)
+  drains = [d for d in h.drains if d.get('metric') is not None and (sp is None or not d['metric'].startswith(sp))]
   drained_in = {}
   for d in drains:
     for (t, v) in d['points']:
